@@ -318,6 +318,20 @@ Proof.
 Qed.
 Arguments tstep_ok {st l1 l2 t p' l1' l2'} _ _ _ _.
 
+Lemma tstep_gen_ok miss st l1 l2 t p' l1' l2' :
+  map_ok st l1 -> l2_ok st l2 -> thread_ok st t ->
+  tstep_gen miss st l1 l2 (t_req t) (t_pc t) = (p', l1', l2') ->
+  map_ok st l1' /\ l2_ok st l2' /\ thread_ok st (mkThread (t_req t) (t_born t) p').
+Proof.
+  intros H1 H2 Ht Hs. destruct miss; cbn [tstep_gen] in Hs; [|exact (tstep_ok H1 H2 Ht Hs)].
+  unfold tstep_miss in Hs. destruct Ht as [Hb Hpc].
+  destruct (t_pc t) as [| |b| |b|b| |r] eqn:E;
+    try (apply (tstep_ok H1 H2); [split; [exact Hb|rewrite E; exact Hpc]|rewrite E; exact Hs]).
+  - inversion Hs; subst. split; [exact H1|]. split; [exact H2|]. split; [exact Hb|exact Hpc].
+  - inversion Hs; subst. split; [exact H1|]. split; [exact H2|]. split; [exact Hb|exact Hpc].
+Qed.
+Arguments tstep_gen_ok {miss st l1 l2 t p' l1' l2'} _ _ _ _.
+
 (* ------------------------------------------------------------------ *)
 (* lists of readers                                                     *)
 
@@ -353,18 +367,24 @@ Proof.
   destruct (uses_cache q); cbn; reflexivity.
 Qed.
 
+Lemma do_step_inv miss s i : inv s -> inv (do_step miss s i).
+Proof.
+  intros [H1 [H2 H3]]. unfold do_step.
+  destruct (nth_error (s_threads s) i) as [t|] eqn:E; [|exact (conj H1 (conj H2 H3))].
+  destruct (tstep_gen miss (s_store s) (s_l1 s) (s_l2 s) (t_req t) (t_pc t)) as [[p' l1'] l2'] eqn:Es.
+  destruct (tstep_gen_ok H1 H2 (Forall_nth_error H3 E) Es) as [G1 [G2 G3]].
+  split; [exact G1|]. split; [exact G2|]. cbn [s_threads s_store].
+  apply Forall_set_nth; [exact H3|exact G3].
+Qed.
+
 Lemma apply_event_inv s e : inv s -> inv (apply_event s e).
 Proof.
-  intros [H1 [H2 H3]]. destruct e as [q|i|k|k|k o]; cbn [apply_event].
+  intros [H1 [H2 H3]]. destruct e as [q|i|i|k|k|k o]; cbn [apply_event].
   - (* EStart *)
     split; [exact H1|]. split; [exact H2|]. cbn [s_threads s_store].
     apply Forall_app. split; [exact H3|]. constructor; [apply first_pc_ok|constructor].
-  - (* EStep *)
-    destruct (nth_error (s_threads s) i) as [t|] eqn:E; [|exact (conj H1 (conj H2 H3))].
-    destruct (tstep (s_store s) (s_l1 s) (s_l2 s) (t_req t) (t_pc t)) as [[p' l1'] l2'] eqn:Es.
-    destruct (tstep_ok H1 H2 (Forall_nth_error H3 E) Es) as [G1 [G2 G3]].
-    split; [exact G1|]. split; [exact G2|]. cbn [s_threads s_store].
-    apply Forall_set_nth; [exact H3|exact G3].
+  - (* EStep *) apply do_step_inv. exact (conj H1 (conj H2 H3)).
+  - (* EStepMiss *) apply do_step_inv. exact (conj H1 (conj H2 H3)).
   - (* EEvict1 *)
     split; [exact (map_ok_adel k H1)|]. split; [exact H2|exact H3].
   - (* EEvict2 *)
@@ -406,11 +426,17 @@ Qed.
 (* ------------------------------------------------------------------ *)
 (* a reader's request and arrival snapshot never change; the store only grows *)
 
+Lemma do_step_store miss s i : s_store (do_step miss s i) = s_store s.
+Proof.
+  unfold do_step. destruct (nth_error (s_threads s) i); [|reflexivity].
+  now destruct (tstep_gen _ _ _ _ _ _) as [[p' l1'] l2'].
+Qed.
+
 Lemma apply_event_store s e : prefix (s_store s) (s_store (apply_event s e)).
 Proof.
-  destruct e as [q|i|k|k|k o]; cbn [apply_event]; try apply prefix_refl.
-  - destruct (nth_error (s_threads s) i) as [t|]; [|apply prefix_refl].
-    destruct (tstep _ _ _ _ _) as [[p' l1'] l2']. apply prefix_refl.
+  destruct e as [q|i|i|k|k|k o]; cbn [apply_event]; try apply prefix_refl.
+  - rewrite do_step_store. apply prefix_refl.
+  - rewrite do_step_store. apply prefix_refl.
   - apply store_put_prefix.
 Qed.
 
@@ -420,20 +446,31 @@ Proof.
   exact (prefix_trans (apply_event_store s e) (IH _)).
 Qed.
 
+Lemma do_step_static miss s j i t :
+  nth_error (s_threads s) i = Some t ->
+  exists t', nth_error (s_threads (do_step miss s j)) i = Some t' /\
+             t_req t' = t_req t /\ t_born t' = t_born t.
+Proof.
+  intro H. unfold do_step.
+  destruct (nth_error (s_threads s) j) as [u|] eqn:E; [|exists t; split; [exact H|split; reflexivity]].
+  destruct (tstep_gen _ _ _ _ _ _) as [[p' l1'] l2']. cbn [s_threads].
+  destruct (Nat.eq_dec j i) as [->|Hne].
+  - rewrite H in E; inversion E; subst u.
+    eexists. split; [exact (set_nth_same _ H)|split; reflexivity].
+  - exists t. split; [|split; reflexivity]. now rewrite set_nth_other.
+Qed.
+Arguments do_step_static miss s j {i t} _.
+
 Lemma apply_event_static s e i t :
   nth_error (s_threads s) i = Some t ->
   exists t', nth_error (s_threads (apply_event s e)) i = Some t' /\
              t_req t' = t_req t /\ t_born t' = t_born t.
 Proof.
-  intro H. destruct e as [q|j|k|k|k o]; cbn [apply_event]; try (exists t; split; [exact H|split; reflexivity]).
+  intro H. destruct e as [q|j|j|k|k|k o]; cbn [apply_event]; try (exists t; split; [exact H|split; reflexivity]).
   - exists t. split; [|split; reflexivity]. cbn [s_threads].
     rewrite nth_error_app1; [exact H|]. apply nth_error_Some. now rewrite H.
-  - destruct (nth_error (s_threads s) j) as [u|] eqn:E; [|exists t; split; [exact H|split; reflexivity]].
-    destruct (tstep _ _ _ _ _) as [[p' l1'] l2']. cbn [s_threads].
-    destruct (Nat.eq_dec j i) as [->|Hne].
-    + rewrite H in E; inversion E; subst u.
-      eexists. split; [exact (set_nth_same _ H)|split; reflexivity].
-    + exists t. split; [|split; reflexivity]. now rewrite set_nth_other.
+  - exact (do_step_static false s j H).
+  - exact (do_step_static true s j H).
 Qed.
 Arguments apply_event_static s e {i t} _.
 
@@ -612,8 +649,30 @@ Proof.
 Qed.
 Arguments tstep_rank {st l1 l2 q p p' l1' l2'} _.
 
+Lemma tstep_gen_rank miss st l1 l2 q p p' l1' l2' :
+  tstep_gen miss st l1 l2 q p = (p', l1', l2') -> (rank p' <= rank p - 1)%nat.
+Proof.
+  destruct miss; cbn [tstep_gen]; [|apply tstep_rank].
+  unfold tstep_miss. destruct p; try apply tstep_rank; intro H; inversion H; subst; cbn; lia.
+Qed.
+Arguments tstep_gen_rank {miss st l1 l2 q p p' l1' l2'} _.
+
 Definition is_step (i : nat) (e : event) : bool :=
-  match e with EStep j => Nat.eqb i j | _ => false end.
+  match e with EStep j | EStepMiss j => Nat.eqb i j | _ => false end.
+
+Lemma do_step_rank miss s j i t :
+  nth_error (s_threads s) i = Some t ->
+  exists t', nth_error (s_threads (do_step miss s j)) i = Some t' /\
+    (rank (t_pc t') <= rank (t_pc t) - (if Nat.eqb i j then 1 else 0))%nat.
+Proof.
+  intro H. unfold do_step. destruct (Nat.eqb_spec i j) as [<-|Hne].
+  - rewrite H. destruct (tstep_gen _ _ _ _ _ _) as [[p' l1'] l2'] eqn:Es. cbn [s_threads].
+    eexists. split; [exact (set_nth_same _ H)|]. cbn [t_pc]. exact (tstep_gen_rank Es).
+  - destruct (nth_error (s_threads s) j) as [u|] eqn:E; [|exists t; split; [exact H|lia]].
+    destruct (tstep_gen _ _ _ _ _ _) as [[p' l1'] l2']. cbn [s_threads].
+    exists t. split; [|lia]. rewrite set_nth_other; [exact H|]. intro X; apply Hne; now subst.
+Qed.
+Arguments do_step_rank miss s j {i t} _.
 Definition steps_of (i : nat) (sched : list event) : nat := length (filter (is_step i) sched).
 
 Lemma apply_event_rank s e i t :
@@ -621,16 +680,12 @@ Lemma apply_event_rank s e i t :
   exists t', nth_error (s_threads (apply_event s e)) i = Some t' /\
     (rank (t_pc t') <= rank (t_pc t) - (if is_step i e then 1 else 0))%nat.
 Proof.
-  intro H. destruct e as [q|j|k|k|k o]; cbn [apply_event is_step];
+  intro H. destruct e as [q|j|j|k|k|k o]; cbn [apply_event is_step];
     try (exists t; split; [exact H|lia]).
   - exists t. split; [|lia]. cbn [s_threads].
     rewrite nth_error_app1; [exact H|]. apply nth_error_Some. now rewrite H.
-  - destruct (Nat.eqb_spec i j) as [<-|Hne].
-    + rewrite H. destruct (tstep _ _ _ _ _) as [[p' l1'] l2'] eqn:Es. cbn [s_threads].
-      eexists. split; [exact (set_nth_same _ H)|]. cbn [t_pc]. exact (tstep_rank Es).
-    + destruct (nth_error (s_threads s) j) as [u|] eqn:E; [|exists t; split; [exact H|lia]].
-      destruct (tstep _ _ _ _ _) as [[p' l1'] l2']. cbn [s_threads].
-      exists t. split; [|lia]. rewrite set_nth_other; [exact H|]. intro X; apply Hne; now subst.
+  - exact (do_step_rank false s j H).
+  - exact (do_step_rank true s j H).
 Qed.
 Arguments apply_event_rank s e {i t} _.
 
@@ -696,11 +751,9 @@ Qed.
 Lemma run_app a b s : run (a ++ b) s = run b (run a s).
 Proof. unfold run. apply fold_left_app. Qed.
 
-Lemma step_store s i : s_store (apply_event s (EStep i)) = s_store s.
-Proof.
-  cbn [apply_event]. destruct (nth_error (s_threads s) i); [|reflexivity].
-  now destruct (tstep _ _ _ _ _) as [[p' l1'] l2'].
-Qed.
+Lemma step_store s i (m : bool) :
+  s_store (apply_event s (if m then EStepMiss i else EStep i)) = s_store s.
+Proof. destruct m; cbn [apply_event]; apply do_step_store. Qed.
 
 Lemma read_sched_store i f : forall ev s, s_store (run (read_sched i f ev) s) = s_store s.
 Proof.
@@ -716,8 +769,9 @@ Proof. induction l as [|e r IH]; cbn; [reflexivity|]. now destruct e. Qed.
 Lemma read_sched_steps i f : forall ev, steps_of i (read_sched i f ev) = f.
 Proof.
   induction f as [|f IH]; intro ev; cbn [read_sched]; [reflexivity|].
-  unfold steps_of in *. rewrite filter_app, filter_evicts. cbn [app filter is_step].
-  rewrite Nat.eqb_refl. cbn [length]. now rewrite IH.
+  unfold steps_of in *. rewrite filter_app, filter_evicts. cbn [app].
+  destruct (snd (hd ([], false) ev)); cbn [filter is_step];
+    rewrite Nat.eqb_refl; cbn [length]; now rewrite IH.
 Qed.
 
 (* one sequential read from any state satisfying the invariant *)
@@ -860,15 +914,30 @@ Proof. vm_compute. reflexivity. Qed.
 Definition ex_history : list sop :=
   [ORead (QGet 1) [];
    OPut 1 ex_obj1;
-   ORead (QGet 1) [[Ev1 1]; []; []; [Ev2 1]];
+   ORead (QGet 1) [([Ev1 1], false); ([], true); ([], false); ([Ev2 1], false)];
    OPut 1 ex_obj2;                                   (* rejected: write-once *)
-   ORead (QGet 1) [[Ev1 1]];
+   ORead (QGet 1) [([Ev1 1], false)];
+   ORead (QGet 1) [([], true); ([], true)];          (* both lookups come back empty: fetched again *)
    ORead (QGetRange 1 2 9) [];
    ORead (QGetOpts 2 default_opts) []].
 
 Example ex_sequential :
   snd (seq_run ex_history (init [] true) []) =
     [Some (Failed (E_WRAP E_NOTFOUND)); Some (Done (whole_resp [10; 20; 30; 40]));
-     Some (Done (whole_resp [10; 20; 30; 40])); Some (Done (mkResp [30; 40] 2 4 4));
-     Some (Failed (E_WRAP E_NOTFOUND))].
+     Some (Done (whole_resp [10; 20; 30; 40])); Some (Done (whole_resp [10; 20; 30; 40]));
+     Some (Done (mkResp [30; 40] 2 4 4)); Some (Failed (E_WRAP E_NOTFOUND))].
+Proof. vm_compute. reflexivity. Qed.
+
+(* a lookup that comes back empty does not remove the entry: L2 misses for
+   reader 1 (EStepMiss) and serves reader 2 without any insert in between *)
+Example ex_transient_miss :
+  let s := run [EStart (QGet 1); EStep 0; EStep 0; EStep 0; EStep 0; EStep 0;
+                EEvict1 1;
+                EStart (QGet 1); EStep 1; EStepMiss 1;          (* parked in front of the fetch *)
+                EStart (QGet 1); EStepMiss 2; EStep 2; EStep 2; (* L2 hit, promoted *)
+                EStep 1; EStep 1; EStep 1]
+               (init [(1, ex_obj1)] true) in
+  map (result_of s) [0; 1; 2]%nat =
+    [Some (Done (whole_resp [10; 20; 30; 40])); Some (Done (whole_resp [10; 20; 30; 40]));
+     Some (Done (whole_resp [10; 20; 30; 40]))].
 Proof. vm_compute. reflexivity. Qed.
